@@ -706,21 +706,23 @@ Fixpoint read_paths (count : nat) (st : list N) : rpres :=
       match line with
       | [] => RPErr                                         (* n == 0: unexpected end of file *)
       | _ =>
-        match strip_prefix S_INDENT line with
-        | None => RPErr
-        | Some body =>
-          if nonempty (str_trim line) then
-            match path_from_escaped (strip_eol body) with
-            | PErr => RPErr
-            | PPanic => RPPanic
-            | POk p =>
-              match read_paths k rest with
-              | RPOk ps rest' => RPOk (p :: ps) rest'
-              | e => e
+        if last line 0 =? 10 then                            (* path_str.ends_with('\n'), else: incomplete path *)
+          match strip_prefix S_INDENT line with
+          | None => RPErr
+          | Some body =>
+            if nonempty (str_trim line) then
+              match path_from_escaped (strip_eol body) with
+              | PErr => RPErr
+              | PPanic => RPPanic
+              | POk p =>
+                match read_paths k rest with
+                | RPOk ps rest' => RPOk (p :: ps) rest'
+                | e => e
+                end
               end
-            end
-          else RPErr
-        end
+            else RPErr
+          end
+        else RPErr
       end
     end
   end.
